@@ -59,6 +59,24 @@ def fields(hs):
     return {k: v for k, v in vars(hs).items()}
 
 
+def _installed_backends():
+    out = {"python"}
+    try:
+        import M2Crypto  # noqa
+        out.add("openssl")
+    except Exception:   # noqa
+        pass
+    try:
+        import Crypto.Cipher.AES  # noqa
+        out.add("pycrypto")
+    except Exception:   # noqa
+        pass
+    return out
+
+
+INSTALLED_BACKENDS = _installed_backends()
+
+
 # ---------------------------------------------------------------- (d)
 OOD = [
     ("minKeySize", [511, 0, -1, 16385, 100000]),
@@ -66,7 +84,10 @@ OOD = [
     ("cipherNames", [["aes128", "nosuch"], ["AES128"], []]),
     ("macNames", [["sha1"], ["sha", "SHA256"], ["hmac"]]),
     ("keyExchangeNames", [["rsa", "dh"], ["ECDHE_RSA"], ["psk"]]),
-    ("cipherImplementations", [["python", "rust"], ["c"], []]),
+    ("cipherImplementations", [["python", "rust"], ["c"], []] + [
+        x for x in (["openssl", "openssl"], ["pycrypto", "openssl",
+                                             "pycrypto"])
+        if not (set(x) & _installed_backends())]),
     ("certificateTypes", [["openpgp"], ["x509", "raw"], []]),
     ("minVersion", [(3, 5), (2, 0), (4, 0), (3,)]),
     ("maxVersion", [(3, 5), (2, 0), (1, 0)]),
@@ -159,6 +180,8 @@ def make_cases(ctx):
             for w, (lo, hi) in enumerate(WINDOWED_COMBOS[name]):
                 yield "combo-%s-w%d" % (name, w), dict(kind="combo", j=j,
                                                        window=[lo, hi])
+    for how in ("reverse", "append", "remove_last", "remove_first", "clear"):
+        yield "fresh-" + how, dict(kind="fresh", how=how)
     for i in range(ctx.pick(800, 40000)):
         yield "p%d" % i, dict(kind="pair", i=i)
     # directed pairs: one side allows a single value in one dimension (its
@@ -183,6 +206,12 @@ def make_cases(ctx):
                     yield "psk-%s-%d-%s-%s" % (h, with_cert, "+".join(cm),
                                                "+".join(sm)), dict(
                         kind="pskpair", hash=h, cert=with_cert, cm=cm, sm=sm)
+    for h in ("sha256", "sha384"):
+        for lay in ("c_empty_first", "c_other_first", "c_other_last",
+                    "c_three", "s_other_first", "both"):
+            yield "psk-%s-%s" % (h, lay), dict(
+                kind="pskpair", hash=h, cert=True, layout=lay,
+                cm=["psk_dhe_ke", "psk_ke"], sm=["psk_dhe_ke", "psk_ke"])
     # EC point formats: every valid list on either side (uncompressed is
     # mandatory), ECDHE pinned, below TLS 1.3 where the extension matters
     from tlslite.constants import ECPointFormat as PF
@@ -269,12 +298,24 @@ def check_idempotent(ctx, v1, key, W):
 _inst_cache = {}
 
 
+
+
 def check_instantiable(ctx, v, key, W):
     """every named algorithm in the validated output can be performed"""
     from tlslite.utils import cipherfactory
     from tlslite.constants import GroupName
     from tlslite.tlsconnection import TLSConnection
     impls = v.cipherImplementations
+    # back ends: only the ones this installation can import (found out here
+    # by importing them, not by asking tlslite)
+    for b in impls:
+        if b not in INSTALLED_BACKENDS:
+            ctx.ev()
+            ctx.violation(dict(key, clause="unusable_algorithm",
+                               what="backend:" + str(b)), W,
+                          "validated settings keep cipher back end %r, "
+                          "which is not installed (%r)" % (b, list(impls)))
+            break
     for c in v.cipherNames:
         k = ("cipher", c, tuple(impls))
         if k in _inst_cache:
@@ -687,6 +728,26 @@ def run_pskpair(ctx, cid, P):
     ss = HandshakeSettings()
     cs.pskConfigs = [psk]
     ss.pskConfigs = [psk]
+    # further keys beside the shared one, on either side, in any position
+    # (an entry with an empty identity is accepted by validate() and is not
+    # offered; unknown identities are passed over by the server)
+    other = (b"some-other-identity", b"\x07" * 32, "sha256")
+    other384 = (b"other-identity-384", b"\x08" * 48, "sha384")
+    empty = (b"", b"\x09" * 32, "sha256")
+    lay = P.get("layout", "plain")
+    if lay == "c_empty_first":
+        cs.pskConfigs = [empty, psk]
+    elif lay == "c_other_first":
+        cs.pskConfigs = [other, psk]
+    elif lay == "c_other_last":
+        cs.pskConfigs = [psk, other384]
+    elif lay == "c_three":
+        cs.pskConfigs = [other, empty, psk, other384]
+    elif lay == "s_other_first":
+        ss.pskConfigs = [other384, other, psk]
+    elif lay == "both":
+        cs.pskConfigs = [other, psk]
+        ss.pskConfigs = [other384, psk]
     cs.psk_modes = list(P["cm"])
     ss.psk_modes = list(P["sm"])
     try:
@@ -701,8 +762,8 @@ def run_pskpair(ctx, cid, P):
     ctx.ev()
     ctx.count("pairs")
     ctx.count("psk_pairs")
-    W = {"case": cid, "params": {k: P[k] for k in ("hash", "cert", "cm",
-                                                   "sm")},
+    W = {"case": cid, "params": {k: P.get(k) for k in ("hash", "cert", "cm",
+                                                       "sm", "layout")},
          "outcome": [outcome(tc), outcome(ts)]}
     if tc.status != "done" or ts.status != "done":
         e = ts.exc if ts.exc is not None else tc.exc
@@ -810,9 +871,73 @@ def run_pair(ctx, cid, P):
                                              p.c.session.cipherSuite].name))
 
 
+def run_fresh(ctx, cid, P):
+    """what an application does to one settings object (restricting its
+    lists in place, the documented way of configuring) must not show in
+    another one: a fresh HandshakeSettings() always has the same defaults,
+    also after objects made before were changed or validated"""
+    def values(hs):
+        return {k: copy.deepcopy(v) for k, v in vars(hs).items()
+                if not callable(v)}
+    before = values(HandshakeSettings())
+    vbefore = values(HandshakeSettings().validate())
+    rng = ctx.rng
+    victims = [HandshakeSettings(), HandshakeSettings().validate(),
+               HandshakeSettings().validate().validate()]
+    for hs in victims:
+        for k, v in sorted(vars(hs).items()):
+            if isinstance(v, list) and v:
+                how = P["how"]
+                try:
+                    if how == "remove_last":
+                        v.remove(v[-1])
+                    elif how == "remove_first":
+                        del v[0]
+                    elif how == "clear":
+                        del v[:]
+                    elif how == "reverse":
+                        v.reverse()
+                    elif how == "append":
+                        v.append(v[0])
+                except Exception:   # noqa
+                    pass
+    ctx.ev()
+    ctx.count("fresh_defaults_checked")
+    after = values(HandshakeSettings())
+    key = {"kind": "fresh", "how": P["how"]}
+    bad = sorted(k for k in before if before[k] != after.get(k))
+    if bad:
+        ctx.violation(dict(key, clause="defaults_shared_between_objects",
+                           field=bad[0]),
+                      {"case": cid, "fields": bad,
+                       "before": repr(before[bad[0]]),
+                       "after": repr(after.get(bad[0]))},
+                      "changing one settings object in place changed the "
+                      "defaults of new ones: %s" % bad)
+        return
+    try:
+        vafter = values(HandshakeSettings().validate())
+    except Exception as e:   # noqa
+        ctx.violation(dict(key, clause="defaults_shared_between_objects",
+                           field="validate"), {"case": cid, "exc": repr(e)},
+                      "default settings no longer validate: %r" % (e,))
+        return
+    bad = sorted(k for k in vbefore if vbefore[k] != vafter.get(k))
+    if bad:
+        ctx.violation(dict(key, clause="defaults_shared_between_objects",
+                           field=bad[0], validated=True),
+                      {"case": cid, "fields": bad,
+                       "before": repr(vbefore[bad[0]]),
+                       "after": repr(vafter.get(bad[0]))},
+                      "validated defaults changed: %s" % bad)
+
+
 def run(ctx):
     for cid, P in ctx.cases(make_cases(ctx)):
         k = P["kind"]
+        if k == "fresh":
+            run_fresh(ctx, cid, P)
+            continue
         if k == "settings":
             run_settings(ctx, cid, P)
         elif k in ("ood", "ind", "combo"):
@@ -828,6 +953,8 @@ def finalize(m, tier):
         out.append("fewer than 500 valid settings objects")
     if c.get("ood_rejected", 0) < 50:
         out.append("fewer than 50 out-of-domain rejections")
+    if c.get("fresh_defaults_checked", 0) < 5:
+        out.append("defaults of fresh settings objects not re-checked")
     if c.get("compatible_connected", 0) < 50:
         out.append("fewer than 50 compatible pairs connected")
     return out
